@@ -53,12 +53,15 @@ def _case(draw):
         "delays": draw(st.lists(st.integers(0, 5), min_size=1, max_size=10)),
         "fault": None,
     }
-    kind = draw(st.sampled_from(["none", "none", "start-fails", "start-fails", "daemon-leaves", "daemon-leaves"]))
+    kind = draw(st.sampled_from(["none", "none", "start-fails", "start-fails", "daemon-leaves", "daemon-leaves", "daemon-leaves-after-stop"]))
     if not case["external"]:
         if kind == "start-fails":
             case["fault"] = {"kind": "start-fails", "host": draw(st.integers(0, n - 1))}
         elif kind == "daemon-leaves" and remote_ips:
             case["fault"] = {"kind": "daemon-leaves", "ip": draw(st.integers(0, len(remote_ips) - 1)), "at": draw(st.integers(0, 4))}
+        elif kind == "daemon-leaves-after-stop" and remote_ips:
+            # no failure: a remote daemon goes away once its host has confirmed that its nodes are stopped (others may still be at it)
+            case["fault"] = {"kind": "daemon-leaves-after-stop", "ip": draw(st.integers(0, len(remote_ips) - 1)), "after": draw(st.integers(0, 3))}
     return case
 
 
@@ -187,6 +190,10 @@ def run_case(case, obs):
         obs.cls("acks-out-of-order")
     if not fault:
         obs.cls("no-fault")
+    if fault and "left_at" in fault:
+        obs.cls("daemon-leaves-after-its-host-confirmed-the-stop")
+        if len(started_ok) >= 2 and any(e["t"] > fault["left_at"] for e in stops):
+            obs.cls("daemon-leaves-while-another-host-is-still-stopping")
     obs.mark_nontrivial((len(r.distinct) >= 2 and any(ip != 0 for ip, _, _ in case["nodes"]) and out_of_order) or fired)
 
 
